@@ -64,6 +64,10 @@ type sm9EncPair struct {
 type poolLeaf struct {
 	roots *smx509.CertPool
 	leaf  *smx509.Certificate
+	// a constrained PKI made for this object alone (names with a label of its own): nil in half of the trials
+	nc       *ncPKI
+	inters   *smx509.CertPool
+	ncLeaves []*smx509.Certificate
 }
 
 var burstUID = []byte("burst-user")
@@ -350,7 +354,7 @@ var burstKinds = []burstKind{
 			obj.(cipher.Block).Encrypt(out, fixedHash[:16])
 			return out
 		}},
-	{"certificate pool filled from PEM / from parsed certificates: first Verify of a leaf", 20,
+	{"certificate pool filled from PEM / from parsed certificates, plain or with a technically constrained root and intermediate of its own: first Verify of leaves", 20,
 		func(r *mon.Rand) any {
 			pki := burstPKI()
 			o := &poolLeaf{roots: smx509.NewCertPool()}
@@ -366,6 +370,19 @@ var burstKinds = []burstKind{
 			}
 			o.leaf, err = smx509.ParseCertificate(pki.leafDER)
 			must(err)
+			if r.Intn(2) == 1 {
+				// the pool also holds a technically constrained root whose names nobody in this process has seen before
+				o.nc = buildNCPKI(r, r.Uint64(), burstWhen, nil, false)
+				o.inters = smx509.NewCertPool()
+				if !o.roots.AppendCertsFromPEM(pemOf(o.nc.rootDER)) || !o.inters.AppendCertsFromPEM(pemOf(o.nc.interDER)) {
+					panic("c20 setup: AppendCertsFromPEM failed")
+				}
+				for _, l := range o.nc.leaves {
+					crt, err := smx509.ParseCertificate(l.der)
+					must(err)
+					o.ncLeaves = append(o.ncLeaves, crt)
+				}
+			}
 			return o
 		},
 		func(obj any, g int, seed uint64) []byte {
@@ -373,6 +390,16 @@ var burstKinds = []burstKind{
 			roots := o.roots
 			if g%3 == 2 {
 				roots = o.roots.Clone()
+			}
+			if o.nc != nil {
+				// goroutine g: the permitted leaf (even g) or a violating one, options shape by seed and g
+				li := 0
+				if g%2 == 1 {
+					li = 1 + g/2%(len(o.ncLeaves)-1)
+				}
+				shape, opts := o.nc.ncOptions(int(seed>>20) + g)
+				opts.Roots, opts.Intermediates = roots, o.inters
+				return cat([]byte(o.nc.leaves[li].name+" / "+shape+" -> "), verdict(o.ncLeaves[li].Verify(opts)))
 			}
 			chains, err := o.leaf.Verify(smx509.VerifyOptions{Roots: roots, CurrentTime: burstWhen})
 			if err != nil {
